@@ -751,7 +751,11 @@ impl FileStateMachine {
             buf.extend_from_slice(&term.to_be_bytes());
         }
 
-        std::fs::write(data_path, buf)?;
+        // Write a temporary file and rename it over the old one: a crash in between must leave
+        // the previous checkpoint readable, not an empty or half-written file.
+        let tmp_path = self.data_dir.join("state.data.tmp");
+        std::fs::write(&tmp_path, buf)?;
+        std::fs::rename(&tmp_path, data_path)?;
         Ok(())
     }
 
@@ -763,12 +767,15 @@ impl FileStateMachine {
             data.iter().map(|(k, (v, t))| (k.clone(), (v.clone(), *t))).collect()
         };
 
+        // Write a temporary file and rename it over the old one: a crash in between must leave
+        // the previous checkpoint readable, not an empty or half-written file.
         let data_path = self.data_dir.join("state.data");
+        let tmp_path = self.data_dir.join("state.data.tmp");
         let mut file = OpenOptions::new()
             .write(true)
             .create(true)
             .truncate(true)
-            .open(data_path)
+            .open(&tmp_path)
             .await?;
         #[cfg(feature = "verif-hooks")]
         crate::verif_exports::crash_point("sm:data:after_truncate");
@@ -791,6 +798,8 @@ impl FileStateMachine {
         file.flush().await?;
         #[cfg(feature = "verif-hooks")]
         crate::verif_exports::crash_point("sm:data:after_write");
+        drop(file);
+        fs::rename(&tmp_path, &data_path).await?;
 
         Ok(())
     }
@@ -798,11 +807,12 @@ impl FileStateMachine {
     /// Persists metadata to disk
     fn persist_metadata(&self) -> Result<(), Error> {
         let metadata_path = self.data_dir.join("metadata.bin");
+        let tmp_path = self.data_dir.join("metadata.bin.tmp");
         let mut file = std::fs::OpenOptions::new()
             .write(true)
             .create(true)
             .truncate(true)
-            .open(metadata_path)?;
+            .open(&tmp_path)?;
 
         let index = self.last_applied_index.load(Ordering::SeqCst);
         let term = self.last_applied_term.load(Ordering::SeqCst);
@@ -811,16 +821,19 @@ impl FileStateMachine {
         file.write_all(&term.to_be_bytes())?;
 
         file.flush()?;
+        drop(file);
+        std::fs::rename(&tmp_path, metadata_path)?;
         Ok(())
     }
 
     async fn persist_metadata_async(&self) -> Result<(), Error> {
         let metadata_path = self.data_dir.join("metadata.bin");
+        let tmp_path = self.data_dir.join("metadata.bin.tmp");
         let mut file = OpenOptions::new()
             .write(true)
             .create(true)
             .truncate(true)
-            .open(metadata_path)
+            .open(&tmp_path)
             .await?;
         #[cfg(feature = "verif-hooks")]
         crate::verif_exports::crash_point("sm:meta:after_truncate");
@@ -834,6 +847,8 @@ impl FileStateMachine {
         file.flush().await?;
         #[cfg(feature = "verif-hooks")]
         crate::verif_exports::crash_point("sm:meta:after_write");
+        drop(file);
+        fs::rename(&tmp_path, &metadata_path).await?;
         Ok(())
     }
 
